@@ -11,6 +11,7 @@ from pv.monitors.c11 import TYPES, VALIDATORS, A, B, Reject
 
 ID = 'C12'
 TITLE = 'out() validation and success downgrade'
+ANCHORS = ['plumpy.processes:Process.out', 'plumpy.processes:Process.on_finish', 'plumpy.ports:PortNamespace.get_port', 'plumpy.ports:PortNamespace.validate_dynamic_ports']
 LEVEL = 'exploration'
 TECHNIQUE = ('runtime monitoring against a reference model: generated processes emit scripted (port path, value) sequences; every out() verdict, the '
              'outputs after each emission, the listener notifications, the future and the success flag are compared with an independent '
